@@ -8,6 +8,7 @@ from core import B, limbs
 def W(v, nl): return limbs(v, nl)
 
 def run(ctx):
+    ctx.claim_exhaustive = False      # keys / messages / parameters are sampled over an enumerated grid; only the spec-level models are exhaustive
     rnd = ctx.rnd; big = ctx.big()
     ctx.model_check('mc/MC_Crc.tla', 'mc/MC_Crc_all.cfg' if big else 'mc/MC_Crc.cfg', what='MC_Crc (width 8%s)' % (', all 128 polynomials' if big else ', 8 polynomials'))
     from crysp import crc as C
